@@ -181,8 +181,12 @@ Fixpoint norm_newlines (s : bytes) : bytes :=
       else c :: norm_newlines r
   end.
 
-(* ... then the escape sequences the lexer lets through (scanEscape: a b f n r t v backslash, the
-   quote itself -- which cannot occur between the quotes here -- and the numeric forms). [UUnknown]: an escape this model does not interpret (\x \u \U octal) *)
+(* ... then the escape sequences (parser/lexer: scanEscape lets a b f n r t v backslash, the quote
+   itself -- which cannot occur between the quotes here --, three octal digits, \xHH, \uHHHH,
+   \u{H..} with 1-6 digits and \UHHHHHHHH through; utils.go unescapeChar then decodes them). Every
+   numeric form denotes a CODE POINT that is written as UTF-8 (multibyte = true): '\xe9' and '\351'
+   are the two bytes of U+00E9, not the byte 0xE9 (strconv.Unquote would give the byte).
+   [UUnknown]: a literal this model does not interpret (invalid UTF-8 in the text) *)
 Inductive ures := UOk (s : bytes) | UBad | UUnknown.
 
 Definition simple_escape (c : N) : option N :=
@@ -196,28 +200,108 @@ Definition simple_escape (c : N) : option N :=
   else if N.eqb c 92 then Some 92%N    (* \\ *)
   else None.
 
-Definition unknown_escape (c : N) : bool :=
-  N.eqb c 120 || N.eqb c 117 || N.eqb c 85 || in_rng 48 55 c.   (* x u U 0-7 *)
+(* lexer digitVal / utils unhex *)
+Definition hex_val (c : N) : option N :=
+  if in_rng 48 57 c then Some (c - 48)%N
+  else if in_rng 97 102 c then Some (c - 87)%N
+  else if in_rng 65 70 c then Some (c - 55)%N
+  else None.
 
-Fixpoint unescape (s : bytes) : ures :=
-  match s with
-  | [] => UOk []
-  | c :: r =>
-      if N.eqb c 92 then
-        match r with
-        | [] => UBad
-        | e :: r2 =>
-            match simple_escape e with
-            | Some x => match unescape r2 with UOk t => UOk (x :: t) | o => o end
-            | None => if unknown_escape e then UUnknown else UBad
-            end
-        end
-      else match unescape r with UOk t => UOk (c :: t) | o => o end
+Definition oct_val (c : N) : option N := if in_rng 48 55 c then Some (c - 48)%N else None.
+
+(* unicode/utf8.EncodeRune: a surrogate half and a value beyond U+10FFFF are written as U+FFFD *)
+Definition max_rune : N := 1114111.
+Definition utf8_encode (v : N) : bytes :=
+  (if v <? 128 then [v]
+   else if v <? 2048 then [192 + v / 64; 128 + v mod 64]
+   else if in_rng 55296 57343 v || (max_rune <? v) then [239; 191; 189]
+   else if v <? 65536 then [224 + v / 4096; 128 + (v / 64) mod 64; 128 + v mod 64]
+   else [240 + v / 262144; 128 + (v / 4096) mod 64; 128 + (v / 64) mod 64; 128 + v mod 64])%N.
+
+(* the bytes a numeric escape of value v contributes ([None]: "unable to unescape string").
+   kind 0 = \xHH, 1 = \uHHHH, 2 = \UHHHHHHHH, 3 = \u{H..}, 4 = octal. The value is accumulated in
+   a rune (int32): eight digits from 80000000 on are negative there, pass the v > MaxRune test and are
+   written as the single byte byte(v) *)
+Definition esc_value (kind v : N) : option bytes :=
+  if N.eqb kind 2 && (2147483648 <=? v)%N then Some [(v mod 256)%N]
+  else if (max_rune <? v)%N then None
+  else Some (utf8_encode v).
+
+(* where the scan stands inside a literal *)
+Inductive estate :=
+| ESText                                  (* ordinary text *)
+| ESEsc                                   (* after a backslash *)
+| ESHex (kind : N) (n : nat) (v : N)      (* n more hex digits of \x \u \U to read, value so far *)
+| ESU                                     (* after \u : an opening brace or the first of four digits *)
+| ESBrace (d : nat) (v : N)               (* inside \u{ : d digits read *)
+| ESOct (n : nat) (v : N).                (* n more octal digits to read *)
+
+Definition emit_to_text (o : option bytes) : option (estate * bytes) :=
+  match o with Some b => Some (ESText, b) | None => None end.
+
+Definition hex_step (kind : N) (n : nat) (v c : N) : option (estate * bytes) :=
+  match hex_val c with
+  | None => None
+  | Some d =>
+      let v' := (v * 16 + d)%N in
+      match n with
+      | O => None
+      | S O => emit_to_text (esc_value kind v')
+      | S m => Some (ESHex kind m v', [])
+      end
   end.
+
+(* one character of the literal: the next state and the bytes written ([None]: does not compile) *)
+Definition estep (st : estate) (c : N) : option (estate * bytes) :=
+  match st with
+  | ESText => if N.eqb c 92 then Some (ESEsc, []) else Some (ESText, [c])
+  | ESEsc =>
+      match simple_escape c with
+      | Some x => Some (ESText, [x])
+      | None =>
+          if N.eqb c 120 then Some (ESHex 0 2 0, [])             (* x *)
+          else if N.eqb c 117 then Some (ESU, [])                  (* u *)
+          else if N.eqb c 85 then Some (ESHex 2 8 0, [])           (* U *)
+          else if in_rng 48 51 c then Some (ESOct 2 (c - 48)%N, []) (* 0-3; 4-7 pass the lexer, not unescapeChar *)
+          else None                                                (* X, ?, backtick, double quote and everything else *)
+      end
+  | ESHex kind n v => hex_step kind n v c
+  | ESU => if N.eqb c 123 then Some (ESBrace 0 0, []) else hex_step 1 4 0 c
+  | ESBrace d v =>
+      if N.eqb c 125 then match d with O => None | S _ => emit_to_text (esc_value 3 v) end
+      else match hex_val c with
+           | None => None
+           | Some x => if Nat.leb 6 d then None else Some (ESBrace (S d) (v * 16 + x)%N, [])
+           end
+  | ESOct n v =>
+      match oct_val c with
+      | None => None
+      | Some x =>
+          let v' := (v * 8 + x)%N in
+          match n with
+          | O => None
+          | S O => emit_to_text (esc_value 4 v')
+          | S m => Some (ESOct m v', [])
+          end
+      end
+  end.
+
+Definition uapp (p : bytes) (u : ures) : ures := match u with UOk t => UOk (p ++ t) | o => o end.
+
+Fixpoint unesc (st : estate) (s : bytes) : ures :=
+  match s with
+  | [] => match st with ESText => UOk [] | _ => UBad end      (* the literal ends inside an escape *)
+  | c :: r => match estep st c with
+              | None => UBad
+              | Some (st', out) => uapp out (unesc st' r)
+              end
+  end.
+
+Definition unescape (s : bytes) : ures := unesc ESText s.
 
 (* the value expr-lang gives to the literal 'raw':
    UBad = the expression does not compile (raw line feed: literal not terminated; bad escape),
-   UUnknown = outside this model (invalid UTF-8 is replaced by U+FFFD; \x \u \U octal escapes) *)
+   UUnknown = outside this model (invalid UTF-8 in the text is replaced by U+FFFD) *)
 Definition str_value (raw : bytes) : ures :=
   if existsb (N.eqb 10) raw then UBad
   else if negb (utf8_valid raw) then UUnknown
